@@ -175,7 +175,7 @@ def patched_iter(cls, fault, n_bins, seen):
 def faults(m, symm, full, salt=0):
     """faults for a stream of m chunks: the iterator failing before every chunk index 0..m, plus invalid records /
     unstorable values.  full=True: every kind x chunk x row position; full="kinds": every kind x chunk, the row position
-    rotating; full=False: every chunk x row position, the kind rotating"""
+    rotating; full=False: every chunk x row position, the kind rotating; full="perchunk": one per chunk, kind and row rotating"""
     out = [dict(kind="raise", chunk=k) for k in range(m + 1)]
     kinds = ["oob", "dup", "badvalue"] + (["tril"] if symm else [])
     oobv = ["bin2=n", "bin1=n", "bin1=-1", "bin2=n+3"]
@@ -184,7 +184,10 @@ def faults(m, symm, full, salt=0):
     for k in range(m):
         for pi, pos in enumerate(("first", "middle", "last")):
             for kind in kinds:
-                if full == "kinds":
+                if full == "perchunk":          # one rejected record / failed write per chunk, kind and row rotating
+                    if (k + salt) % 3 != pi or (k + salt) % len(kinds) != kinds.index(kind):
+                        continue
+                elif full == "kinds":
                     if (k + kinds.index(kind) + salt) % 3 != pi:
                         continue
                 elif not full and (k + pi + kinds.index(kind)) % len(kinds) != 0:
@@ -345,15 +348,25 @@ def run_producer(prod, dest, fault, seen, templates, symm=True, form="frame", m=
     src = templates["sources"]
     if fault and fault["kind"] == "natural":
         fault = None           # the fault is in the inputs / options, nothing is injected into the stream
+    extra = {k: opts[k] for k in ("metadata", "assembly") if opts.get(k) is not None}     # user metadata / assembly name
     try:
         if prod == "ordered":
             chunks = [as_form(c, form) for c in split(valid_pixels(symm), m)]
-            create_cooler(dest.uri, BINS, faulty(iter(chunks), fault, NB, seen), ordered=True, symmetric_upper=symm, mode=dest.mode)
+            if opts.get("entry") == "create":        # the lower-level entry point
+                from cooler.create import create
+                create(dest.uri, BINS, faulty(iter(chunks), fault, NB, seen), symmetric_upper=symm, mode=dest.mode, **extra)
+            else:
+                create_cooler(dest.uri, BINS, faulty(iter(chunks), fault, NB, seen), ordered=True, symmetric_upper=symm, mode=dest.mode, **extra)
         elif prod == "unordered-input":
             chunks = [as_form(c, form) for c in split(valid_pixels(symm), m)]
             chunks = chunks[1:] + chunks[:1]          # not in order
-            create_cooler(dest.uri, BINS, faulty(iter(chunks), fault, NB, seen), ordered=False, symmetric_upper=symm, mode=dest.mode,
-                          mergebuf=opts.get("mergebuf", 10 ** 6), max_merge=opts.get("max_merge", 200))
+            if opts.get("entry") == "create":
+                from cooler.create import create_from_unordered
+                create_from_unordered(dest.uri, BINS, faulty(iter(chunks), fault, NB, seen), symmetric_upper=symm, mode=dest.mode,
+                                      mergebuf=opts.get("mergebuf", 10 ** 6), max_merge=opts.get("max_merge", 200), **extra)
+            else:
+                create_cooler(dest.uri, BINS, faulty(iter(chunks), fault, NB, seen), ordered=False, symmetric_upper=symm, mode=dest.mode,
+                              mergebuf=opts.get("mergebuf", 10 ** 6), max_merge=opts.get("max_merge", 200), **extra)
         elif prod == "unordered-merge":
             from cooler._reduce import CoolerMerger
             chunks = split(valid_pixels(symm), m)
@@ -362,17 +375,18 @@ def run_producer(prod, dest, fault, seen, templates, symm=True, form="frame", m=
                 chunks = [SPARSE[1], SPARSE[0]]
             with patched_iter(CoolerMerger, fault, NB, seen):
                 create_cooler(dest.uri, BINS, iter(chunks), ordered=False, symmetric_upper=symm, mode=dest.mode,
-                              mergebuf=opts.get("mergebuf", 12))
+                              mergebuf=opts.get("mergebuf", 12), **extra)
         elif prod == "merge":
             from cooler._reduce import CoolerMerger
             inputs = opts.get("inputs", ["s1", "s2"])
             with patched_iter(CoolerMerger, fault, NB, seen):
-                cooler.merge_coolers(dest.uri, [src + "::/" + s for s in inputs], mergebuf=opts.get("mergebuf", 12), mode=dest.mode)
+                cooler.merge_coolers(dest.uri, [src + "::/" + s for s in inputs], mergebuf=opts.get("mergebuf", 12), mode=dest.mode,
+                                     **{k: v for k, v in extra.items() if k == "metadata"})   # (the assembly is taken from the inputs)
         elif prod == "coarsen":
             from cooler._reduce import CoolerCoarsener
             base = opts.get("base", "base")
             with patched_iter(CoolerCoarsener, fault, NB_COARSE, seen):
-                cooler.coarsen_cooler(src + "::/" + base, dest.uri, 2, chunksize=opts.get("chunksize", 9), mode=dest.mode)
+                cooler.coarsen_cooler(src + "::/" + base, dest.uri, 2, chunksize=opts.get("chunksize", 9), mode=dest.mode, **extra)
         else:
             raise AssertionError(prod)
     except Exception as e:  # noqa: BLE001
@@ -435,6 +449,11 @@ def evaluate(B, templates, prod, dname, fault, symm=True, form="frame", m=3, opt
                 px = c.pixels()[:]
                 got = {(int(a), int(b)): int(v) for a, b, v in zip(px.bin1_id, px.bin2_id, px["count"])}
                 ok = got == content and c.info["nbins"] == nb
+                o = opts or {}
+                if o.get("metadata") is not None and not (prod == "coarsen" and False):
+                    ok = ok and c.info.get("metadata") == o["metadata"]
+                if o.get("assembly") is not None and prod != "merge":
+                    ok = ok and c.info.get("genome-assembly") == o["assembly"]
             B.check("control.valid-stream-creates-cooler", ok, case, "not created / wrong content", "cooler with the expected pixels",
                     signature=f"control.valid-stream-creates-cooler:{prod}")
             snap1 = snapshot(dest.path, dest.group)
@@ -605,7 +624,8 @@ def main():
                "(bin2=n, bin1=n, bin1=-1, bin2=n+3) / lower-triangle pixel / in-chunk duplicate / unstorable value (write step fails) at first|middle|last row; "
                "destinations: new file, new group in multi-collection file, existing plain group, root of a file holding collections, "
                "sibling of a nested collection, existing plain group next to a nested collection, new file non-root group (thorough); producers: ordered, unordered (input pass, merge pass), "
-               "merge_coolers, coarsen_cooler (+ sources holding a lower-triangle pixel, tiny merge buffers); "
+               "merge_coolers, coarsen_cooler (+ sources holding a lower-triangle pixel, tiny merge buffers); the matrix repeated WITH metadata= / "
+               f"assembly= (entry points create_cooler and create/create_from_unordered) for {'all producers x destinations' if B.thorough else 'ordered, unordered x new file, new group, re-created existing group (one fault per chunk + iterator failure at every index)'}; "
                + ("full product" if B.thorough else "ordered x multi-collection destination: every kind x chunk x row; other producers there: every kind x "
                   "chunk (row rotating); other destinations: every chunk x row with the kind rotating (ordered: all; others: new file, root of file) "
                   "or the iterator failure at every index"))
@@ -666,6 +686,26 @@ def main():
         for dname in dests if B.thorough else ("new-group-in-multi",):
             for fault in faults(m, False, B.thorough or prod == "ordered", salt=1):
                 go(prod, dname, fault, symm=False, m=m)
+    # creations WITH user metadata / an assembly name: the same matrix (iterator failing before chunk 0..m, a rejected record or failed
+    # write at every chunk); what the user passes for the info attributes must not make a stopped creation look finished
+    METAS = {"metadata": {"metadata": {"sample": "x1", "nested": {"a": [1, 2, {"b": None}]}, "format": "HDF5::Cooler"}},
+             "assembly": {"assembly": "hg19-test"},
+             "both": {"metadata": {"k": "v"}, "assembly": "mm10"}}
+    meta_dests = dests if B.thorough else ("new-file", "new-group-in-multi", "existing-plain-group")
+    meta_prods = list(streams) if B.thorough else ("ordered", "unordered-input", "unordered-merge")
+    for prod in meta_prods:
+        mm, opts0 = streams[prod]
+        for mi, (mname, mopts) in enumerate(METAS.items()):
+            if mname == "both" and not B.thorough:
+                continue
+            for di, dname in enumerate(meta_dests):
+                o = dict(opts0, **mopts)
+                if prod in ("ordered", "unordered-input") and (mi + di) % 2:
+                    o["entry"] = "create"
+                if di == 0 or B.thorough:
+                    go(prod, dname, None, m=m, opts=o)      # control: it works, and the info comes back
+                for fault in faults(mm, True, True if B.thorough else "perchunk", salt=mi + di):
+                    go(prod, dname, fault, m=m, opts=o)
     # natural faults: sources that hold a lower-triangle pixel; tiny merge buffers; recursive merge
     for dname in dests if B.thorough else ("new-group-in-multi", "root-of-file-with-collections"):
         for bad in ("tril-early", "tril-mid", "tril-late"):
